@@ -36,9 +36,16 @@ Fixpoint dedupZ (l : list Z) : list Z :=
                | y :: _ => if (x =? y)%Z then dedupZ l' else x :: dedupZ l'
                end
   end.
-(* sorted, duplicate-free: the canonical form of a Python set / np.unique of integers *)
+(* np.unique of integers: sorted, duplicate-free *)
 Definition norm_setZ (l : list Z) : list Z := dedupZ (sortZ l).
-Definition norm_set (l : list N) : list N := map Z.to_N (norm_setZ (map Z.of_N l)).
+(* the canonical form of a Python set of integers: sorted, duplicate-free *)
+Fixpoint insertN (x : N) (l : list N) : list N :=
+  match l with
+  | [] => [x]
+  | y :: l' => if (x <=? y)%N then x :: l else y :: insertN x l'
+  end.
+Definition sortN (l : list N) : list N := fold_right insertN [] l.
+Definition norm_set (l : list N) : list N := nodup N.eq_dec (sortN l).
 
 (* l[-n:] *)
 Definition lastn {A} (n : nat) (l : list A) : list A := skipn (length l - n) l.
@@ -309,6 +316,23 @@ Definition post_process (e : env) (p : params) (r : list (N * data)) : list (N *
 Definition lookup_data (t : N) (r : list (N * data)) : option data :=
   match find (fun td => N.eqb (fst td) t) r with Some td => Some (snd td) | None => None end.
 
+(* need_t0 or need_system_t0 *)
+Definition needs_t0 (st : state) (needed' : list N) : bool :=
+  s_need_t0 st && existsb (fun t => memN t p1_types) needed'
+  || s_need_sys_t0 st && existsb (fun t => memN t sys_types) needed'.
+
+(* data_cache[header.message_type].add_message(...) for every stored message, in storage order *)
+Definition fill (p : params) (msgs : list DLmsg) (r : list (N * data)) : list (N * data) :=
+  map (fun td => (fst td, fold_left (add_message (p_bytes p) (p_idx p)) (of_type (fst td) msgs) (snd td))) r.
+
+(* the MessageData objects in the result are the cached objects: post-processing is visible in the cache *)
+Definition write_back (types : list N) (c : N -> option entry) (r : list (N * data)) : N -> option entry :=
+  fold_left (fun c t => match lookup_data t r, c t with
+                        | Some d, Some (k, _) => cache_set c t (k, d)
+                        | _, _ => c end) types c.
+
+Definition with_cache (st : state) (c : N -> option entry) : state := mkState c (s_need_t0 st) (s_need_sys_t0 st).
+
 Definition read_gen (v : variant) (e : env) (st : state) (a : args) : state * outcome :=
   let '(p, types, ignore) := norm_args e a in
   let key := key_of v p in
@@ -318,36 +342,25 @@ Definition read_gen (v : variant) (e : env) (st : state) (a : args) : state * ou
                                   | None => true end) types in
   let needed := if ignore then types
                 else if v_reread_all v then (match missing with [] => [] | _ => types end) else missing in
-  (* data_cache = {} if ignore_cache else self.data; fresh MessageData for every needed type *)
+  (* data_cache = {} if ignore_cache else self.data; a fresh MessageData for every needed type *)
   let base : N -> option entry := if ignore then (fun _ => None) else s_cache st in
   let cache1 := if a_order a then base else fold_left (fun c t => cache_set c t (key, empty_data)) needed base in
   let needed' := reduce_needed p needed in
   if a_order a then
     match needed' with
     | [] => (st, OutOrder empty_data)
-    | _ => if s_need_t0 st && existsb (fun t => memN t p1_types) needed'
-              || s_need_sys_t0 st && existsb (fun t => memN t sys_types) needed' then (st, OutUnmodelled)
-           else
-             let msgs := read_messages v e p types needed' in
-             (st, OutOrder (fold_left (add_message (p_bytes p) (p_idx p)) msgs empty_data))
+    | _ => if needs_t0 st needed' then (st, OutUnmodelled)
+           else (st, OutOrder (fold_left (add_message (p_bytes p) (p_idx p)) (read_messages v e p types needed') empty_data))
     end
   else
     (* result = {t: data_cache[t] for t in message_types}: every requested type has an entry here (cached or new) *)
     let result0 := map (fun t => (t, match cache1 t with Some (_, d) => d | None => empty_data end)) types in
     match needed' with
-    | [] => (if ignore then st else mkState cache1 (s_need_t0 st) (s_need_sys_t0 st), OutDict result0)
-    | _ => if s_need_t0 st && existsb (fun t => memN t p1_types) needed'
-              || s_need_sys_t0 st && existsb (fun t => memN t sys_types) needed' then (st, OutUnmodelled)
+    | [] => (if ignore then st else with_cache st cache1, OutDict result0)            (* "Nothing to read." *)
+    | _ => if needs_t0 st needed' then (st, OutUnmodelled)
            else
-             let msgs := read_messages v e p types needed' in
-             (* data_cache[header.message_type].add_message(...) for every stored message *)
-             let result1 := map (fun td => (fst td, fold_left (add_message (p_bytes p) (p_idx p)) (of_type (fst td) msgs) (snd td))) result0 in
-             let result2 := post_process e p result1 in
-             (* the MessageData objects in the result are the cached objects: post-processing is visible in the cache *)
-             let cache2 := fold_left (fun c t => match lookup_data t result2, cache1 t with
-                                                | Some d, Some (k, _) => cache_set c t (k, d)
-                                                | _, _ => c end) types cache1 in
-             (if ignore then st else mkState cache2 (s_need_t0 st) (s_need_sys_t0 st), OutDict result2)
+             let result2 := post_process e p (fill p (read_messages v e p types needed') result0) in
+             (if ignore then st else with_cache st (write_back types cache1 result2), OutDict result2)
     end.
 
 Definition read := read_gen current.
@@ -368,10 +381,11 @@ Definition fresh (e : env) (a : args) : outcome := snd (read e init_state a).
    reader's (C10): index selection by time range, requested types and, when P1 time is required, entries with P1
    time; then the read-time tests (source id requested and available, payload decodes, P1 / system time present). *)
 Definition spec_pass (e : env) (a : args) (p : params) (all_sources : bool) (m : DLmsg) : bool :=
-  (match a_src a with None => true | Some s => memN (m_src m) s end)
-  && (all_sources || memN (m_src m) (e_avail e))
-  && m_decodes m
-  && (if p_p1 p then m_p1_some m else true) && (if p_sys p then m_sys_some m else true).
+  if all_sources then
+    (match a_src a with None => true | Some s => memN (m_src m) s end)
+    && m_decodes m
+    && (if p_p1 p then m_p1_some m else true) && (if p_sys p then m_sys_some m else true)
+  else read_pass e p m.
 (* [all_sources]: the reader's own notion of available sources (false), or every source present in the log (true) *)
 Definition spec_selected (e : env) (a : args) (all_sources : bool) : list DLmsg :=
   let '(p, types, _) := norm_args e a in
@@ -401,11 +415,11 @@ Definition diag (e : env) (a : args) : bool * nat :=
 
 Definition trange_eqb (a b : trange) : bool := if trange_eq_dec a b then true else false.
 
-(* FileIndex[TimeRange] given as a table {time range -> ordinals selected, in index order} taken from the
-   implementation's reader (C10/C13 own its semantics) *)
+(* FileIndex[TimeRange] given as a table {time range -> ordinals selected} taken from the implementation's reader
+   (C10/C13 own its semantics); the selection keeps index order *)
 Definition tfilter_table (tab : list (trange * list N)) (tr : trange) (l : list DLmsg) : list DLmsg :=
   match find (fun e => trange_eqb (fst e) tr) tab with
-  | Some (_, ords) => flat_map (fun o => match find (fun m => N.eqb (m_ord m) o) l with Some m => [m] | None => [] end) ords
+  | Some (_, ords) => filter (fun m => memN (m_ord m) ords) l
   | None => []
   end.
 
